@@ -61,7 +61,7 @@ CHECKS = {
          "Close-by-client / close-by-server / relay-failure / idle events in PRNG order, each followed by an echo on the current or a fresh connection; after pairing every connection must live at the key-derived rendezvous. Stream closes that report errors, a dialer in back-off while a malformed packet reaches the refreshed listener, per-attempt dial contexts cancelled as grpc does.",
          "real-time liveness verdicts follow the re-run rule", "3/C11", True),
  "C15": ("exploration", "runtime monitoring: net.Conn contract oracle (n<=len(buf), untouched tail, stream equality, write counts) over NoiseGrpcConn, NoiseConn and the plain mailbox connKit with PRNG write sizes and read-buffer sizes",
-         "Read buffers from 1 byte to larger than a record; writes up to 300000 bytes on the TCP variant; oversized writes on the gRPC variant must fail cleanly; transport write timeouts inside records; one credentials object serving connections in turn (abandoned mid-record, late writes by the holder of a closed connection, failed handshakes); calls after Close on every variant; the real Listener/Dial over loopback TCP with a socket that gathers writes. Long sequences (1050-1349 records, two key rotations) on the gRPC and TCP variants; senders that offer the rest again before flushing a timed-out record. Deadline preludes on the real sockets (armed through one setter, cleared through another).",
+         "Read buffers from 1 byte to larger than a record; writes up to 300000 bytes on the TCP variant; oversized writes on the gRPC variant must fail cleanly; transport write timeouts inside records; one credentials object serving connections in turn (abandoned mid-record, late writes by the holder of a closed connection, failed handshakes); calls after Close on every variant; the real Listener/Dial over loopback TCP with a socket that gathers writes. Long sequences (1050-1349 records, two key rotations) on the gRPC and TCP variants; senders that offer the rest again before flushing a timed-out record. Deadline preludes on the real sockets (armed through one setter, cleared through another). Variant W: the plain mailbox connection with the client on the real websocket transport (local TLS endpoint bridged to the relay model), first and refreshed connection.",
          "empty-record behaviour beyond the three clauses is not judged", "3/C15", True),
  "C16": ("exploration", "runtime monitoring: the same (deterministic-ephemeral) handshake and records run unfragmented and through fragmenting readers; partial-write writer with timeout errors over all two- and three-way splits of a record, compared byte-for-byte with a bit-identical twin session",
          "Outcome equality under read fragmentation; emitted-bytes equality, flushed-count sum and ErrMessageNotFlushed under partial writes.",
